@@ -806,6 +806,9 @@ func (fe *FuncEnc) inputRefs() []string {
 				out = append(out, p.S)
 			}
 		}
+		if p.K == SSlice {
+			out = append(out, "(s_base "+p.S+")")
+		}
 	}
 	return out
 }
